@@ -35,8 +35,8 @@ def run(keys, opts=None, tier='quick', verbose=True):
             verdict = 'discharged' if ok else '/'.join(sorted(set(sts)))
         if not ok:
             bad += 1
-        if verbose or not ok:
-            tm = sum(r['time'] for _, r in lst)
+        tm = sum(r['time'] for _, r in lst)
+        if verbose or not ok or tm > 3:
             print(f"{verdict:12s} {oid}  [{len(lst)} path(s), {tm*1000:.0f} ms]")
             if not ok and not exp:
                 for o, r in lst:
@@ -45,7 +45,7 @@ def run(keys, opts=None, tier='quick', verbose=True):
                         if r.get('model'):
                             m = r['model']
                             keys_ = sorted(m)[:40]
-                            print("     model:", {k: m[k] for k in keys_})
+                            print("     model:", str({k: m[k] for k in keys_})[:700])
                         if r['status'] == 'unknown':
                             print("     reason:", [x.get('reason') for x in r['runs']])
                         break
